@@ -1,4 +1,4 @@
-// C11 part 1: instantiations for mpz_class / mpq_class
+// C11 part 1: instantiations for long long
 #include "harness/c11_cells.hh"
 namespace c11 {
 using namespace PPL;
@@ -16,5 +16,5 @@ template <class T> static void reg_mp() {
   Runner<CNW<T, PD> >::register_all(); Runner<CNW<T, PW> >::register_all();
   Runner<CNW<T, Checked_Number_Transparent_Policy<T> > >::register_all(); Runner<RAWW<T> >::register_all();
 }
-void register_mp() { reg_mp<mpz_class>(); reg_mp<mpq_class>(); }
+void register_llong() { reg_int<long long>(); reg_int<unsigned long long>(); }
 }
